@@ -19,6 +19,10 @@ theorem pushNext_bank (A : Arith α) (s : St α) (S : NT) (h2 : List (Deriv α))
     (pushNext A s S h2 w el cl ns).1.bankNt = s.bankNt := by
   unfold pushNext; split <;> rfl
 
+theorem pushNext_deleted (A : Arith α) (s : St α) (S : NT) (h2 : List (Deriv α)) (w : Int) (el : Deriv α) (cl : List α) (ns : Bool) :
+    (pushNext A s S h2 w el cl ns).1.deleted = s.deleted := by
+  unfold pushNext; split <;> rfl
+
 theorem mok_resume (E : Env α) (f : Nat) (ih : MOk E f) : ∀ s fr r, resume E (f + 1) s fr = some r → BMono s r.st := by
   intro s fr r h
   rw [resume] at h
@@ -211,6 +215,208 @@ theorem mok_all (E : Env α) : ∀ f, MOk E f := by
                     · simp at h
       · simp at h
 
+/-! ### `_deleted` only grows -/
+
+structure DOk (E : Env α) (f : Nat) : Prop where
+  resume : ∀ s fr r, resume E f s fr = some r → DSub s r.st
+  drive : ∀ s fr s', drive E f s fr = some s' → DSub s s'
+  queryList : ∀ s S ci s' ia r, queryList E f s S ci = some (s', ia, r) → DSub s s'
+  argLoop : ∀ s cs ss ia agf acc s' ia' agf' acc', argLoop E f s cs ss ia agf acc = some (s', ia', agf', acc') → DSub s s'
+  combLoop : ∀ s args ci c combs ns hg s' ns' hg', combLoop E f s args ci c combs ns hg = some (s', ns', hg') → DSub s s'
+  queryDer : ∀ s args ci s' l, queryDer E f s args ci = some (s', l) → DSub s s'
+
+theorem dok_resume (E : Env α) (f : Nat) (ih : DOk E f) : ∀ s fr r, resume E (f + 1) s fr = some r → DSub s r.st := by
+  intro s fr r h
+  rw [resume] at h
+  split at h
+  · simp only at h
+    split at h
+    · exact ih.resume _ _ _ h
+    · split at h
+      · exact (addDeleted_sub _ _).trans (ih.resume _ _ _ h)
+      · split at h
+        · simp at h
+        · rename_i s1 hb
+          simp only [Option.some.injEq] at h; subst h
+          obtain ⟨b, l, hb1, hl1, rfl⟩ := appendBank_spec hb
+          exact DSub.of_eq rfl
+  · exact ih.resume _ _ _ h
+  · exact ih.resume _ _ _ h
+  · split at h
+    · simp at h
+    · split at h
+      · cases hx : exitQuery s fr with
+        | none => simp [hx] at h
+        | some s' =>
+          simp only [hx, Option.map_some, Option.some.injEq] at h; subst h
+          exact DSub.of_eq (exitQuery_deleted hx)
+      · split at h
+        · cases hx : exitQuery s fr with
+          | none => simp [hx] at h
+          | some s' =>
+            simp only [hx, Option.map_some, Option.some.injEq] at h; subst h
+            exact DSub.of_eq (exitQuery_deleted hx)
+        · split at h
+          · simp at h
+          · rename_i el heap' hpop
+            split at h
+            · rename_i s1 args w he hrule
+              have m1 : DSub s s1 := (DSub.of_eq (s := s) (s' := s.setHeap fr.S heap') rfl).trans (DSub.of_eq (ensureBank_deleted he))
+              split at h
+              · simp only at h
+                split at h
+                · exact m1.trans (ih.resume _ _ _ h)
+                · split at h
+                  · exact (m1.trans (addDeleted_sub _ _)).trans (ih.resume _ _ _ h)
+                  · split at h
+                    · simp at h
+                    · rename_i s2 hb
+                      simp only [Option.some.injEq] at h; subst h
+                      obtain ⟨b, l, hb1, hl1, rfl⟩ := appendBank_spec hb
+                      exact m1.trans (DSub.of_eq rfl)
+              · split at h
+                · simp at h
+                · rename_i s2 possibles hq
+                  have m2 := m1.trans (ih.queryDer _ _ _ _ _ hq)
+                  split at h
+                  · rename_i em cl h2 _ _ hl2
+                    have m3 : DSub s (pushNext E.A s2 fr.S h2 w el cl fr.noSucc).1 :=
+                      m2.trans (DSub.of_eq (pushNext_deleted _ _ _ _ _ _ _ _))
+                    simp only at h
+                    split at h
+                    · exact m3.trans (ih.resume _ _ _ h)
+                    · exact m3.trans (ih.resume _ _ _ h)
+                  · simp at h
+            · simp at h
+
+theorem dok_all (E : Env α) : ∀ f, DOk E f := by
+  intro f
+  induction f with
+  | zero =>
+    refine ⟨?_, ?_, ?_, ?_, ?_, ?_⟩
+    · intro s fr r h; simp [resume] at h
+    · intro s fr s' h; simp [drive] at h
+    · intro s S ci s' ia r h; simp [queryList] at h
+    · intro s cs ss ia agf acc s' ia' agf' acc' h; simp [argLoop] at h
+    · intro s args ci c combs ns hg s' ns' hg' h; simp [combLoop] at h
+    · intro s args ci s' l h; simp [queryDer] at h
+  | succ f ih =>
+    refine ⟨dok_resume E f ih, ?_, ?_, ?_, ?_, ?_⟩
+    · intro s fr s' h
+      rw [drive] at h
+      split at h
+      · simp at h
+      · rename_i s1 hr
+        simp only [Option.some.injEq] at h; subst h
+        exact ih.resume _ _ _ hr
+      · rename_i s1 fr1 p hr
+        exact (ih.resume _ _ _ hr).trans (ih.drive _ _ _ h)
+    · intro s S ci s' ia r h
+      rw [queryList] at h
+      split at h
+      · split at h
+        · simp only [Option.some.injEq, Prod.mk.injEq] at h; rw [← h.1]; exact DSub.refl _
+        · split at h
+          · simp only [Option.some.injEq, Prod.mk.injEq] at h; rw [← h.1]; exact DSub.refl _
+          · split at h
+            · simp only [Option.some.injEq, Prod.mk.injEq] at h; rw [← h.1]; exact DSub.refl _
+            · split at h
+              · simp at h
+              · rename_i s1 hd
+                have hs1 := ih.drive _ _ _ hd
+                split at h
+                · split at h
+                  · simp only [Option.some.injEq, Prod.mk.injEq] at h; rw [← h.1]; exact hs1
+                  · split at h
+                    · simp only [Option.some.injEq, Prod.mk.injEq] at h; rw [← h.1]; exact hs1
+                    · simp at h
+                · simp at h
+      · simp at h
+    · intro s cs ss ia agf acc s' ia' agf' acc' h
+      cases cs with
+      | nil => simp only [argLoop, Option.some.injEq, Prod.mk.injEq] at h; rw [← h.1]; exact DSub.refl _
+      | cons c cs =>
+        cases ss with
+        | nil => simp only [argLoop, Option.some.injEq, Prod.mk.injEq] at h; rw [← h.1]; exact DSub.refl _
+        | cons Si ss =>
+          rw [argLoop] at h
+          split at h
+          · simp at h
+          · rename_i s1 one r hq
+            have hs1 := ih.queryList _ _ _ _ _ _ hq
+            split at h
+            · split at h
+              · simp only [Option.some.injEq, Prod.mk.injEq] at h; rw [← h.1]; exact hs1
+              · exact hs1.trans (ih.argLoop _ _ _ _ _ _ _ _ _ _ h)
+            · exact hs1.trans (ih.argLoop _ _ _ _ _ _ _ _ _ _ h)
+    · intro s args ci c combs ns hg s' ns' hg' h
+      cases combs with
+      | nil => simp only [combLoop, Option.some.injEq, Prod.mk.injEq] at h; rw [← h.1]; exact DSub.refl _
+      | cons comb rest =>
+        rw [combLoop] at h
+        split at h
+        · simp at h
+        · rename_i s1 ia agf poss ha
+          have hs1 := ih.argLoop _ _ _ _ _ _ _ _ _ _ ha
+          simp only at h
+          split at h
+          · exact hs1.trans (ih.combLoop _ _ _ _ _ _ _ _ _ _ h)
+          · split at h
+            · simp at h
+            · rename_i s2 hsucc
+              have hs2 := hs1.trans (DSub.of_eq (succLoop_deleted E.A E.asserts args c comb _ _ _ _ hsucc))
+              split at h
+              · exact hs2.trans (ih.combLoop _ _ _ _ _ _ _ _ _ _ h)
+              · split at h
+                · simp at h
+                · split at h
+                  · simp at h
+                  · have h9 := ih.combLoop _ _ _ _ _ _ _ _ _ _ h
+                    exact (hs2.trans (DSub.of_eq rfl)).trans h9
+    · intro s args ci s' l h
+      rw [queryDer] at h
+      split at h
+      · split at h
+        · simp only [Option.some.injEq, Prod.mk.injEq] at h; rw [← h.1]; exact DSub.refl _
+        · split at h
+          · simp only [Option.some.injEq, Prod.mk.injEq] at h; rw [← h.1]; exact DSub.refl _
+          · simp only at h
+            split at h
+            · simp only [Option.some.injEq, Prod.mk.injEq] at h; rw [← h.1]; exact DSub.of_eq rfl
+            · split at h
+              · simp at h
+              · split at h
+                · simp at h
+                · rename_i s3 ns hg hc
+                  have h9 := ih.combLoop _ _ _ _ _ _ _ _ _ _ hc
+                  have hs3 : DSub s s3 := (DSub.of_eq (s := s) rfl).trans h9
+                  split at h
+                  · simp at h
+                  · rename_i s4 hs4e
+                    have hs4 : DSub s s4 := by
+                      split at hs4e
+                      · split at hs4e
+                        · simp at hs4e
+                        · simp only [Option.some.injEq] at hs4e; subst hs4e; exact hs3.trans (DSub.of_eq rfl)
+                      · simp only [Option.some.injEq] at hs4e; subst hs4e; exact hs3
+                    split at h
+                    · split at h
+                      · simp at h
+                      · rename_i s5 hs5e
+                        have hs5 : DSub s s5 := by
+                          split at hs5e
+                          · simp only [Option.some.injEq] at hs5e; subst hs5e; exact hs4
+                          · split at hs5e
+                            · simp at hs5e
+                            · split at hs5e
+                              · simp at hs5e
+                              · simp only [Option.some.injEq] at hs5e; subst hs5e; exact hs4.trans (DSub.of_eq rfl)
+                        split at h
+                        · simp at h
+                        · simp only [Option.some.injEq, Prod.mk.injEq] at h; rw [← h.1]; exact hs5
+                    · simp at h
+      · simp at h
+
 /-! ### the bank invariant through the machine -/
 
 /-- what `query` hands back: the invariant, and at a `yield` the frame invariant and a program new to the banks of
@@ -266,7 +472,7 @@ theorem ninv_pop {E : Env α} {s : St α} {L : NT → List (Sym × Nat)} {S : NT
     (lt : Deriv α → Deriv α → Bool) (hN : NInv E s L) (hl : AList.lookup S s.queueNt = some heap)
     (hp : Heapq.pop lt heap = some (el, heap')) : NInv E (s.setHeap S heap') (addL L S (el.P, el.comb)) := by
   have hperm := Heapq.pop_perm lt heap el heap' hp
-  refine ⟨binv_of_eq rfl hN.binv, ?_, ?_⟩
+  refine ⟨binv_of_eq rfl hN.binv, ?_, ?_, fun S c q h => hN.accb S c q h, fun p hp S c h => hN.delout p hp S c h⟩
   · intro S' hh d hlk hd
     simp only [St.setHeap] at hlk
     rw [AList.lookup_insert] at hlk
@@ -300,7 +506,7 @@ theorem ninv_pushNext {E : Env α} {s : St α} {L : NT → List (Sym × Nat)} {S
   unfold pushNext
   split
   · rename_i c1 _
-    refine ⟨binv_of_eq rfl hN.binv, ?_, ?_⟩
+    refine ⟨binv_of_eq rfl hN.binv, ?_, ?_, fun S c q h => hN.accb S c q h, fun p hp S c h => hN.delout p hp S c h⟩
     · intro S' hh d hlk hd
       simp only [St.setHeap] at hlk
       rw [AList.lookup_insert] at hlk
@@ -311,7 +517,7 @@ theorem ninv_pushNext {E : Env α} {s : St α} {L : NT → List (Sym × Nat)} {S
         · subst h3
           have h0 : Consumed E s S' el.P el.comb [] := hN.limboc S' el.P el.comb (by simp [addL])
           have : Consumed E s S' el.P (el.comb + 1) [] :=
-            h0.mono (fun _ hk => hk) (fun _ _ _ hp => hp) (BMono.refl _) (Or.inl (Nat.lt_succ_self _))
+            h0.mono (fun _ hk => hk) (fun _ _ _ hp => hp) (BMono.refl _) (DSub.refl _) (Or.inl (Nat.lt_succ_self _))
           exact this
         · have : Consumed E s S' d.P d.comb [] := hN.heapc S' h2 d hl h3
           exact this
@@ -341,7 +547,8 @@ theorem frok_start {E : Env α} {s : St α} {L : NT → List (Sym × Nat)} {fr :
   refine ⟨args, w, el.comb, [], hrule, hne, ?_, ?_, ?_, ?_, by simp, by simp, by simp⟩
   · rw [hd1]; simpa using hpost
   · exact (hN.limboc fr.S el.P el.comb (by simp [addL])).mono (fun kids hk => (BMono.of_eq hb1.symm).inBank hk)
-      (fun _ _ _ hp => by rw [hd1]; exact hp) (BMono.of_eq hb1) (Or.inr ⟨rfl, fun _ h => h⟩)
+      (fun _ _ _ hp => by rw [hd1]; exact hp) (BMono.of_eq hb1) (DSub.of_eq (pushNext_deleted _ _ _ _ _ _ _ _))
+      (Or.inr ⟨rfl, fun _ h => h⟩)
   · intro hh d hlk hd he
     unfold pushNext at hlk
     split at hlk
@@ -391,22 +598,29 @@ theorem nok_resume (E : Env α) (f : Nat) (ih : NOk E f) : ∀ s fr r L Λ, resu
     split at h
     · have r1 := ih.resume _ _ _ _ _ h hH hT hN hF'
       exact r1
-    · split at h
-      · have e := addDeleted_fields s (.node P tup)
+    · rename_i hdel
+      split at h
+      · rename_i hfil
+        have e := addDeleted_fields s (.node P tup)
         have r1 := ih.resume _ _ _ _ _ h (hinv_addDeleted _ hH)
           (tinv2_of_eq (addDeleted_der _ _).1 (addDeleted_der _ _).2 hT)
-          (ninv_of_eq e.1 e.2.1 e.2.2 hN) (frok_of_eq e.1 e.2.1 e.2.2 hF')
+          (ninv_addDeleted _ hN (by simpa using hfil)) (frok_of_eq e.1 e.2.1 e.2.2 (addDeleted_sub _ _) hF')
         exact resN_of r1 (BMono.of_eq e.1)
-      · split at h
+      · rename_i hfil
+        split at h
         · simp at h
         · rename_i s1 hbk
           simp only [Option.some.injEq] at h; subst h
           obtain ⟨b, l, hb, hl, rfl⟩ := appendBank_spec hbk
+          have hacc : E.filter (.node P tup) = true := by simpa using hfil
+          have hnd : (Tree.node P tup : Prog) ∉ s.deleted := by simpa using hdel
+          have hds : DSub s { s with bankNt := AList.insert fr.S (AList.insert fr.ci (l ++ [.node P tup]) b) s.bankNt } :=
+            DSub.of_eq rfl
           have hm := bmono_append (p := .node P tup) hb hl
           obtain ⟨ps0, hps0, hp0, hk0⟩ := a9 tup List.mem_cons_self
           have hnew : ¬ InBank s fr.S (.node P tup) := a8 tup List.mem_cons_self
           refine ⟨?_, ?_, rfl, hnew, ⟨fr.ci, (inBankAt_append hb hl _ _ _).mpr (Or.inr ⟨rfl, rfl, rfl⟩)⟩⟩
-          · refine ninv_append hN hb hl hnew ?_ a6
+          · refine ninv_append hN hb hl hnew ?_ a6 hacc hnd
             intro hh d hlk hd he args' w' hrule
             rw [a1] at hrule
             simp only [Option.some.injEq, Prod.mk.injEq] at hrule
@@ -420,7 +634,7 @@ theorem nok_resume (E : Env α) (f : Nat) (ih : NOk E f) : ∀ s fr r L Λ, resu
               obtain ⟨c', hin⟩ := hin
               rcases (inBankAt_append hb hl _ c' _).mp hin with a | a
               · obtain ⟨hne, c, ps, h1, h2, h3⟩ := a4 args' w' kids hrule ⟨c', a⟩
-                exact ⟨hne, c, ps, h1, h2.mono hm, h3⟩
+                exact ⟨hne, c, ps, h1, h2.mono hm hds, h3⟩
               · obtain ⟨_, _, e3⟩ := a
                 simp only [Tree.node.injEq, true_and] at e3
                 subst e3
@@ -428,7 +642,7 @@ theorem nok_resume (E : Env α) (f : Nat) (ih : NOk E f) : ∀ s fr r L Λ, resu
                 simp only [Option.some.injEq, Prod.mk.injEq] at hrule
                 obtain ⟨e1, _⟩ := hrule
                 subst e1
-                exact ⟨a2, c0, ps0, hp0, hk0.mono hm, Or.inr ⟨rfl, hps0⟩⟩
+                exact ⟨a2, c0, ps0, hp0, hk0.mono hm hds, Or.inr ⟨rfl, hps0⟩⟩
             · intro t ht hin
               obtain ⟨c', hin⟩ := hin
               rcases (inBankAt_append hb hl _ c' _).mp hin with a | a
@@ -439,7 +653,7 @@ theorem nok_resume (E : Env α) (f : Nat) (ih : NOk E f) : ∀ s fr r L Λ, resu
                 exact (List.nodup_cons.mp a7).1 ht
             · intro t ht
               obtain ⟨ps, hps, hp, hk⟩ := a9 t (List.mem_cons_of_mem _ ht)
-              exact ⟨ps, hps, hp, hk.mono hm⟩
+              exact ⟨ps, hps, hp, hk.mono hm hds⟩
   · -- the next list of pools: its product is snapshotted
     rename_i P ps poss hcur
     unfold FrOK at hF
@@ -453,7 +667,7 @@ theorem nok_resume (E : Env α) (f : Nat) (ih : NOk E f) : ∀ s fr r L Λ, resu
       unfold FrOK
       simp only
       refine ⟨args, w, c0, done ++ [ps], a1, a2, Or.inr ⟨b, hb, by simpa [List.append_assoc] using hlk⟩, ?_, a5, a6, ?_, ?_, ?_⟩
-      · exact a4.mono (fun _ hk => hk) (fun _ _ _ hp => hp) (BMono.refl _)
+      · exact a4.mono (fun _ hk => hk) (fun _ _ _ hp => hp) (BMono.refl _) (DSub.refl _)
           (Or.inr ⟨rfl, fun x hx => List.mem_append_left _ hx⟩)
       · apply cartesian_nodup
         intro p hp
@@ -462,7 +676,7 @@ theorem nok_resume (E : Env α) (f : Nat) (ih : NOk E f) : ∀ s fr r L Λ, resu
       · intro tup ht hin
         have hk := cartesian_kidsIn s ps tup ht
         obtain ⟨_, c, ps', hp', hk', hc⟩ := a4 args w tup a1 hin
-        have e : ps' = ps := refs_unique hN.binv args ps' ps tup (tinv2_okRef hT hp') (tinv2_okRef hT hpAt) hk' hk
+        have e : ps' = ps := refs_unique hN.binv hN.delout args ps' ps tup (tinv2_okRef hT hp') (tinv2_okRef hT hpAt) hk' hk
         subst e
         have hU := tinv2_possU hT args
         have hc0 : c = c0 := hU.2 c c0 ps' hp' hpAt
@@ -472,7 +686,7 @@ theorem nok_resume (E : Env α) (f : Nat) (ih : NOk E f) : ∀ s fr r L Λ, resu
           rw [List.nodup_append] at hnd
           exact hnd.2.2 ps' hc.2 ps' (by simp) rfl
       · intro tup ht
-        exact ⟨ps, by simp, hpAt, cartesian_kidsIn s ps tup ht⟩
+        exact ⟨ps, by simp, hpAt, (cartesian_kidsIn s ps tup ht).weak⟩
     have r1 := ih.resume _ _ _ _ _ h hH hT hN hF'
     exact r1
   · have r1 := ih.resume _ _ _ _ _ h hH hT hN (frok_none rfl)
@@ -487,14 +701,14 @@ theorem nok_resume (E : Env α) (f : Nat) (ih : NOk E f) : ∀ s fr r L Λ, resu
         | some s' =>
           simp only [hx, Option.map_some, Option.some.injEq] at h; subst h
           have e := exitQuery_fields hx
-          exact ninv_of_eq e.1 e.2.1 e.2.2 hN
+          exact ninv_of_eq e.1 e.2.1 e.2.2 (exitQuery_deleted hx) hN
       · split at h
         · cases hx : exitQuery s fr with
           | none => simp [hx] at h
           | some s' =>
             simp only [hx, Option.map_some, Option.some.injEq] at h; subst h
             have e := exitQuery_fields hx
-            exact ninv_of_eq e.1 e.2.1 e.2.2 hN
+            exact ninv_of_eq e.1 e.2.1 e.2.2 (exitQuery_deleted hx) hN
         · split at h
           · simp at h
           · rename_i el heap' hpop
@@ -505,7 +719,7 @@ theorem nok_resume (E : Env α) (f : Nat) (ih : NOk E f) : ∀ s fr r L Λ, resu
             · rename_i s1 args w he hrule
               obtain ⟨q1, d1, m1, m2, bB⟩ := ensureBank_spec he
               have hN1 : NInv E s1 (addL L fr.S (el.P, el.comb)) :=
-                ninv_transfer hN0 q1 (bB hN0.binv) m2 m1 (fun _ _ _ hp => by rw [d1]; exact hp)
+                ninv_transfer hN0 q1 (bB hN0.binv) m2 m1 (fun _ _ _ hp => by rw [d1]; exact hp) (ensureBank_deleted he)
               have hH1 : HInv s1 (addLimbo (symL L) fr.S el.P) := hinv_ensureBank hH0 he
               have hT1 : TInv2 s1 Λ :=
                 tinv2_of_eq (ensureBank_der he).1 (ensureBank_der he).2 (tinv2_of_eq (s := s) rfl rfl hT)
@@ -520,24 +734,29 @@ theorem nok_resume (E : Env α) (f : Nat) (ih : NOk E f) : ∀ s fr r L Λ, resu
                 split at h
                 · have r1 := ih.resume _ _ _ _ _ h hH1d hT1 hN1d (frok_none hcur)
                   exact resN_of r1 mono1
-                · split at h
-                  · have e := addDeleted_fields s1 (.node el.P [])
+                · rename_i hdel
+                  split at h
+                  · rename_i hfil
+                    have e := addDeleted_fields s1 (.node el.P [])
                     have r1 := ih.resume _ _ _ _ _ h (hinv_addDeleted _ hH1d)
                       (tinv2_of_eq (addDeleted_der _ _).1 (addDeleted_der _ _).2 hT1)
-                      (ninv_of_eq e.1 e.2.1 e.2.2 hN1d) (frok_none hcur)
+                      (ninv_addDeleted _ hN1d (by simpa using hfil)) (frok_none hcur)
                     exact resN_of r1 (mono1.trans (BMono.of_eq e.1))
-                  · split at h
+                  · rename_i hfil
+                    split at h
                     · simp at h
                     · rename_i s2 hbk
                       simp only [Option.some.injEq] at h; subst h
                       obtain ⟨b, l, hb, hlb, rfl⟩ := appendBank_spec hbk
+                      have hacc : E.filter (.node el.P []) = true := by simpa using hfil
+                      have hnd : (Tree.node el.P [] : Prog) ∉ s1.deleted := by simpa using hdel
                       have hnew : ¬ InBank s1 fr.S (.node el.P []) := by
                         intro hin
                         have := hN1.limboc fr.S el.P el.comb (by simp [addL]) args w [] hrule hin
                         exact this.1 hargs
                       refine ⟨?_, frok_none (by simpa using hcur), rfl, fun hin => hnew (mono1.inBank hin),
                         ⟨fr.ci, (inBankAt_append hb hlb _ _ _).mpr (Or.inr ⟨rfl, rfl, rfl⟩)⟩⟩
-                      refine ninv_append hN1d hb hlb hnew ?_ hLm
+                      refine ninv_append hN1d hb hlb hnew ?_ hLm hacc hnd
                       intro hh d hlk hd hdP
                       exfalso
                       have := (hH1 fr.S hh hlk).2 el.P (by simp [addLimbo])
@@ -678,7 +897,7 @@ theorem nok_all (E : Env α) : ∀ f, NOk E f := by
             · simp at h
             · rename_i s2 hsucc
               have e := succLoop_fields E.A E.asserts args c comb _ _ _ _ hsucc
-              have hN2 : NInv E s2 L := ninv_of_eq e.1 e.2.1 e.2.2 hN1
+              have hN2 : NInv E s2 L := ninv_of_eq e.1 e.2.1 e.2.2 (succLoop_deleted E.A E.asserts args c comb _ _ _ _ hsucc) hN1
               have hH2 : HInv s2 (symL L) := hinv_succLoop E.A E.asserts args c comb _ _ _ _ hsucc hH1
               have hT2 := tinv2_succLoop E.A E.asserts args c comb rest s1 s2 hsucc hT1
               split at h
@@ -698,7 +917,7 @@ theorem nok_all (E : Env α) : ∀ f, NOk E f := by
                       simpa using this
                     have hN3 : NInv E { s2 with bankDer := AList.insert args (AList.insert ci (l ++ [poss]) b) s2.bankDer } L :=
                       ninv_transfer hN2 rfl (binv_of_eq rfl hN2.binv) (BMono.of_eq rfl) (BMono.of_eq rfl)
-                        (fun a c' ps hp => possAt_append_mono hb hl a c' ps hp)
+                        (fun a c' ps hp => possAt_append_mono hb hl a c' ps hp) rfl
                     have hH3 : HInv { s2 with bankDer := AList.insert args (AList.insert ci (l ++ [poss]) b) s2.bankDer } (symL L) :=
                       hinv_of_eq rfl hH2
                     have hT3 : TInv2 { s2 with bankDer := AList.insert args (AList.insert ci (l ++ [poss]) b) s2.bankDer }
@@ -718,7 +937,7 @@ theorem nok_all (E : Env α) : ∀ f, NOk E f := by
           · rename_i hl0
             have hN1a : NInv E { s with bankDer := AList.insert args (AList.insert ci [] b) s.bankDer } L :=
               ninv_transfer hN rfl (binv_of_eq rfl hN.binv) (BMono.of_eq rfl) (BMono.of_eq rfl)
-                (fun a c' ps hp => possAt_nil_mono hb hl0 a c' ps hp)
+                (fun a c' ps hp => possAt_nil_mono hb hl0 a c' ps hp) rfl
             simp only at h
             split at h
             · simp only [Option.some.injEq, Prod.mk.injEq] at h; rw [← h.1, ← h.2]; exact ⟨hN1a, Or.inl rfl⟩
@@ -727,7 +946,7 @@ theorem nok_all (E : Env α) : ∀ f, NOk E f := by
               · rename_i ct q' hpop
                 have hT1 := tinv2_pop (ci := ci) hT hb hq hpop
                 have hN1 : NInv E ({ s with bankDer := AList.insert args (AList.insert ci [] b) s.bankDer }.setQueueDer args q') L :=
-                  ninv_of_eq (s := { s with bankDer := AList.insert args (AList.insert ci [] b) s.bankDer }) rfl rfl rfl hN1a
+                  ninv_of_eq (s := { s with bankDer := AList.insert args (AList.insert ci [] b) s.bankDer }) rfl rfl rfl rfl hN1a
                 have hH1 : HInv ({ s with bankDer := AList.insert args (AList.insert ci [] b) s.bankDer }.setQueueDer args q') (symL L) :=
                   hinv_of_eq rfl hH
                 split at h
@@ -741,7 +960,7 @@ theorem nok_all (E : Env α) : ∀ f, NOk E f := by
                       split at hs4e
                       · split at hs4e
                         · simp at hs4e
-                        · simp only [Option.some.injEq] at hs4e; subst hs4e; exact ninv_of_eq (s := s3) rfl rfl rfl hN3
+                        · simp only [Option.some.injEq] at hs4e; subst hs4e; exact ninv_of_eq (s := s3) rfl rfl rfl rfl hN3
                       · simp only [Option.some.injEq] at hs4e; subst hs4e; exact hN3
                     split at h
                     · split at h
@@ -754,7 +973,7 @@ theorem nok_all (E : Env α) : ∀ f, NOk E f := by
                             · simp at hs5e
                             · split at hs5e
                               · simp at hs5e
-                              · simp only [Option.some.injEq] at hs5e; subst hs5e; exact ninv_of_eq (s := s4) rfl rfl rfl hN4
+                              · simp only [Option.some.injEq] at hs5e; subst hs5e; exact ninv_of_eq (s := s4) rfl rfl rfl rfl hN4
                         split at h
                         · simp at h
                         · rename_i l5 hl5
